@@ -10,6 +10,7 @@
 #include <map>
 #include <set>
 #include <unordered_set>
+#include <deque>
 #include <functional>
 #include <sstream>
 #include <fstream>
@@ -19,7 +20,7 @@
 #include <sys/stat.h>
 
 extern "C" void __sanitizer_set_death_callback(void (*)(void));
-extern "C" int __lsan_do_recoverable_leak_check(void);
+extern "C" int __lsan_do_recoverable_leak_check(void) __attribute__((weak));
 extern "C" void __lsan_disable(void);
 extern "C" void __lsan_enable(void);
 
@@ -117,6 +118,7 @@ struct Result {
     bool nontrivial = false;
     std::vector<std::string> classes;
     bool skipped = false;      // excluded (known finding region) - counted separately
+    bool fatal = false;        // process state is poisoned (e.g. LeakSanitizer is sticky): save this case unshrunk and stop
     void fail(const std::string &m) { if (ok) { ok = false; msg = m; } }
     void cls(const std::string &c) { classes.push_back(c); }
 };
@@ -135,7 +137,10 @@ struct Stats {
     std::map<std::string, int64_t> extra;               // sub-space sizes etc.
     bool exhaustive = false;
     bool shrinking = false;
+    bool replaying = false;
     std::string lastfail_text, lastfail_msg;
+    std::deque<std::string> recent;     // texts of the most recent cases (for leak attribution)
+    uint64_t since_leak_check = 0;
 
     void begin_case(const Case &c) {
         if (inflight_fd < 0 && !inflight_path.empty()) inflight_fd = open(inflight_path.c_str(), O_CREAT | O_WRONLY | O_TRUNC, 0644);
@@ -221,7 +226,7 @@ struct Stats {
         if (h) { for (uint64_t x : nt_hashes) fwrite(&x, 8, 1, h); fclose(h); }
     }
 };
-inline Stats &stats() { static Stats s; return s; }
+inline Stats &stats() { static Stats *s = new Stats; return *s; }   // never destroyed: used from the sanitizer death callback during exit
 
 inline void death_callback() {
     Stats &s = stats();
@@ -240,17 +245,43 @@ struct Options {
     bool excluded(const std::string &tag) const { return ("," + exclude + ",").find("," + tag + ",") != std::string::npos; }
     int64_t geti(const std::string &k, int64_t d) const { auto it = kv.find(k); return it == kv.end() ? d : std::stoll(it->second); }
 };
-inline Options &opts() { static Options o; return o; }
+inline Options &opts() { static Options *o = new Options; return *o; }
 
 using RunFn = std::function<Result(const Case &)>;
 using GenFn = std::function<Case()>;
 
 // execute one case with book-keeping; returns the result
+// periodic LeakSanitizer check: a leak is attributed to the window of recent cases, which is saved as
+// one multi-case replay file (cases separated by a line "---"); LSan is sticky, so the process stops.
+inline void leak_window_check(bool force) {
+    Stats &s = stats();
+    if (!__lsan_do_recoverable_leak_check) return;
+    if (!force && s.since_leak_check < 4096) return;
+    s.since_leak_check = 0;
+    if (__lsan_do_recoverable_leak_check() == 0) { s.recent.clear(); return; }
+    std::string multi;
+    for (auto &t : s.recent) { if (!multi.empty()) multi += "---\n"; multi += t; }
+    s.save_failure(multi, "LeakSanitizer: memory leaked by one of the last " + std::to_string(s.recent.size()) + " cases (multi-case replay file)");
+    s.flush();
+    fflush(stdout);
+    _exit(1);
+}
 inline Result exec_case(const Case &c, const RunFn &run) {
     Stats &s = stats();
     s.begin_case(c);
     Result r = run(c);
     s.record(c, r);
+    if (s.replaying) return r;
+    s.recent.push_back(c.text());
+    if (s.recent.size() > 4500) s.recent.pop_front();
+    s.since_leak_check++;
+    if (r.fatal && !r.ok) {
+        s.save_failure(c.text(), r.msg);
+        s.flush();
+        fflush(stdout);
+        _exit(1);
+    }
+    if (r.ok) leak_window_check(false);
     return r;
 }
 
@@ -362,15 +393,22 @@ inline int harness_main(int argc, char **argv, Harness &h) {
         s.mode = mode;
         auto it = h.replayers.find(mode);
         if (it == h.replayers.end()) { fprintf(stderr, "no replayer for mode '%s'\n", mode.c_str()); return 2; }
-        Case c = Case::parse(txt);
         s.inflight_path.clear();
-        Result r = it->second(c);
-        if (!r.ok) { printf("REPLAY-FAIL property=%s msg=%s\n", h.prop.c_str(), r.msg.substr(0, 400).c_str()); return 1; }
+        s.replaying = true;
+        std::vector<std::string> parts;
+        { size_t pos = 0; for (;;) { size_t e = txt.find("\n---\n", pos); if (e == std::string::npos) { parts.push_back(txt.substr(pos)); break; } parts.push_back(txt.substr(pos, e - pos + 1)); pos = e + 5; } }
+        for (auto &part : parts) {
+            Case c = Case::parse(part);
+            Result r = it->second(c);
+            if (!r.ok) { printf("REPLAY-FAIL property=%s msg=%s\n", h.prop.c_str(), r.msg.substr(0, 400).c_str()); fflush(stdout); _exit(1); }
+        }
+        if (__lsan_do_recoverable_leak_check && __lsan_do_recoverable_leak_check() != 0) { printf("REPLAY-FAIL property=%s msg=LeakSanitizer: leak after replaying %zu case(s)\n", h.prop.c_str(), parts.size()); fflush(stdout); _exit(1); }
         printf("REPLAY-PASS property=%s\n", h.prop.c_str());
         return 0;
     }
     for (auto &m : h.modes) if (m.name == o.mode) {
         m.fn();
+        if (!s.failures) leak_window_check(true);
         s.flush();
         fflush(stdout);
         return s.failures ? 1 : 0;
